@@ -15,9 +15,11 @@ structure RingIO (K : Type) [CommRing K] [Inhabited K] where
   out : K → Json
   invert : {n : ℕ} → DMat n n K → Option (DMat n n K)
   half : Option K
+  /-- `rep.astype(float)`: the entrywise embedding into ℚ -/
+  toQ : K → ℚ
 
-def qIO : RingIO ℚ := ⟨toQ, ofQ, fun A => Rep.invertF A, some (1 / 2)⟩
-def zIO : RingIO ℤ := ⟨int, fun z => .str (toString z), fun A => Rep.invertZ A, none⟩
+def qIO : RingIO ℚ := ⟨J.toQ, ofQ, fun A => Rep.invertG A, some (1 / 2), id⟩
+def zIO : RingIO ℤ := ⟨int, fun z => .str (toString z), fun A => Rep.invertZG A, none, Int.cast⟩
 
 section
 variable {K : Type} [CommRing K] [Inhabited K] (io : RingIO K)
@@ -76,6 +78,7 @@ def derived (n : ℕ) (ρ : Rep n K) (q : Json) : M? Json := do
     | .ok ci => evalWords io (← ρ.conjugate C (← dmat io n ci)) q
     | .error _ => evalWords io (← ρ.conjugate' io.invert C) q
   | "dual" => evalWords io (← ρ.dual io.invert) q
+  | "astype" => evalWords qIO (← ρ.astype io.toQ) q
   | "subgroup" =>
     let ps ← (do (← arr (← field q "pairs")).mapM fun p => do
       let a ← arr p
